@@ -164,6 +164,12 @@ def main(argv=None):
         print(f"HARNESS-ERROR property={prop} harness={r['harness']}{tuple(r['args'])}\n{r['error']}")
     if errors:
         return 2
+    # vacuity guard: a shard in which no path ran to completion proves nothing (unsatisfiable assumptions / every path aborted)
+    vacuous = [r for r in results if r['paths'] == 0 and r.get('n_inconclusive', 0) == 0 and not r.get('truncated')]
+    for r in vacuous:
+        print(f"HARNESS-ERROR property={prop} vacuous shard (no path completed, {r['aborted']} aborted): {r['harness']}{tuple(r['args'])}")
+    if vacuous:
+        return 2
 
     # ---- counterexamples: group by signature, replay, classify
     known = [k for k in load_known() if k['property'] == prop]
